@@ -96,6 +96,29 @@ func parsePhaseFuncs(w *World) []*ssa.Function {
 			out = append(out, fn)
 		}
 	}
+	// plus the parser-package helpers those call directly (a visitor method split into plain functions)
+	in := map[*ssa.Function]bool{}
+	for _, f := range out {
+		in[f] = true
+	}
+	for i := 0; i < len(out); i++ {
+		forEachInstr(out[i], func(_ *ssa.BasicBlock, ins ssa.Instruction) {
+			c, ok := ins.(ssa.CallInstruction)
+			if !ok {
+				return
+			}
+			g := c.Common().StaticCallee()
+			if g == nil || in[g] || g.Pkg != w.Parser || g.Blocks == nil || !w.isSubjectFunc(g) {
+				return
+			}
+			if rn := recvNamedCore(g); rn != "" && rn != "PacketDslVisitorImpl" && rn != "SyntaxErrorListener" {
+				return
+			}
+			in[g] = true
+			out = append(out, g)
+		})
+	}
+	sortFuncsByName(out)
 	return out
 }
 
@@ -1431,6 +1454,60 @@ func c12Options(w *World, r *Report) {
 		} else {
 			r.fail(rule, key, "internal/model/model.go", fmt.Sprintf("the grammar lexes the pad character %s (the documented spelling) but the option table does not list it: `FixedStringPadChar = %s` is rejected (table has %q)", lx, lx, table["FixedStringPadChar"]))
 		}
+	}
+	// every constant that can become a pad character is one of the grammar's quoted spellings (the generators print it verbatim as a
+	// character literal of the target language); the raw-NUL form is the parser's own normalisation of '\x00'
+	okPad := map[string]bool{"'\x00'": true}
+	for _, lx := range padLex {
+		okPad[lx] = true
+	}
+	nPad := 0
+	for _, fn := range parsePhaseFuncs(w) {
+		forEachInstr(fn, func(b *ssa.BasicBlock, ins ssa.Instruction) {
+			st, ok := ins.(*ssa.Store)
+			if !ok {
+				return
+			}
+			fa, ok := st.Addr.(*ssa.FieldAddr)
+			if !ok {
+				return
+			}
+			if tn, f, _, _ := fieldOf(fa); tn != "Padding" || f != "PadChar" {
+				return
+			}
+			var leaves func(v ssa.Value, d int, out *[]string)
+			seen := map[ssa.Value]bool{}
+			leaves = func(v ssa.Value, d int, out *[]string) {
+				if d > 10 || seen[v] {
+					return
+				}
+				seen[v] = true
+				switch x := v.(type) {
+				case *ssa.Const:
+					if s, ok := constString(x); ok {
+						*out = append(*out, s)
+					}
+				case *ssa.Phi:
+					for _, e := range x.Edges {
+						leaves(e, d+1, out)
+					}
+				}
+			}
+			var consts []string
+			leaves(st.Val, 0, &consts)
+			for _, c := range consts {
+				nPad++
+				key := fmt.Sprintf("%s: pad character constant %q is a quoted spelling", fnKey(fn), c)
+				if okPad[c] {
+					r.pass(rule, key, w.instrPos(ins), "")
+				} else {
+					r.fail(rule, key, w.instrPos(ins), fmt.Sprintf("the constant %q can become Padding.PadChar, but the generators print the pad character verbatim as a character literal: only the grammar's quoted spellings (%s) are valid there", c, strings.Join(padLex, " ")))
+				}
+			}
+		})
+	}
+	if nPad == 0 {
+		r.fail(rule, "pad character constants found", "internal/model/model.go", "no constant default for Padding.PadChar found in the parse phase")
 	}
 	spell := map[string]bool{}
 	for _, lits := range w.G4.ScalarTokens() {
